@@ -154,7 +154,7 @@ def run_v1(ctx: Ctx, per_cause: int):
                 ctx.case(tag, rep)
                 continue
             pending.append((tag, op, out, acts, w.dump(), rep,
-                            {"fn": "gmx1.step", "env": env, "state": {"glp": pre["glp"], "reward": pre["reward"], "wallet": pre["wallet"]}, "op": G.v1_op_json(op, w)}))
+                            w.step_request(pre, env, op)))
     if not ctx.driver_ok:
         for p in pending:
             ctx.case(p[0])
@@ -307,9 +307,12 @@ def run(ctx: Ctx):
     n = ctx.scale(10, 250)
     run_v1(ctx, n)
     run_v2(ctx, n)
+    G.special_stream(ctx, ctx.scale(400, 6000), "gmx.", reject_intact=True)
 
 
 def replay(ctx: Ctx, case) -> bool:
+    if "special" in case:
+        return G.special_replay(case, "gmx.", reject_intact=True)
     sp = case["world"]
     w = G.V1World.from_spec(sp) if sp["ver"] == 1 else G.V2World.from_spec(sp)
     ok = True
